@@ -20,7 +20,15 @@ class AsyncioSingleTask:
                 except asyncio.CancelledError:
                     pass
 
-            self._handle = task_group._task_group.create_task(action())  # type: ignore
+            coro = action()
+            try:
+                self._handle = task_group._task_group.create_task(coro)  # type: ignore
+            except RuntimeError:
+                # The task group is shutting down (the connection's
+                # handler has been cancelled), there is nothing left
+                # to time.
+                coro.close()
+                self._handle = None
 
     async def stop(self) -> None:
         async with self._lock:
